@@ -222,6 +222,13 @@ def prepare(spec, backend, nrand, ncyc, seed_tag="", want_text=False, configure=
     if spec[0] == "gen":
         out["src"] = spec[2]
         out["meta"] = spec[4] if len(spec) > 4 else {}
+    if spec[0] in ("repo", "stdlib") and len(spec) > 2 and isinstance(spec[2], dict) and configure is None:
+        # translation configuration, e.g. {"explicit_module_name": "Renamed"}
+        cfg = spec[2]
+
+        def configure(top, P):
+            for k, v in cfg.items():
+                top.set_metadata(getattr(P, k), v)
     with common.scratch():
         try:
             name, factory, repo_stim = resolve(spec)
